@@ -2412,6 +2412,7 @@ class Interp:
         i = self.fresh("int", "i")
         fr.locals[idx_name] = i
         self.assume(z3.And(i.e >= 0, i.e <= seq.length))
+        spec.seq = seq            # the sequence this loop ranges over (contracts may state WHICH one it must be)
         spec.havoc(self, fr)
         self.assume(spec.invariant(self, fr))
         if not self.branch(self._wrapb(i.e < seq.length), "for"):
